@@ -17,7 +17,7 @@ cp /verif/sim/Cargo.lock /tmp/scr-sim/Cargo.lock
 sed 's#path = "/repo"#path = "/tmp/scr-repo"#' /verif/sim/Cargo.toml > /tmp/scr-sim/Cargo.toml
 printf '[net]\noffline = true\n[build]\ntarget-dir = "target"\n' > /tmp/scr-sim/.cargo/config.toml
 cp /verif/known_findings.txt /tmp/scr-verif/
-(cd /tmp/scr-sim && cargo build --release --offline 2>&1 | grep -E "^error" -A 8 | head -40)
+(cd /tmp/scr-sim && cargo build --release --offline > /tmp/scr-build.log 2>&1) || { grep -E "^error" -A 8 /tmp/scr-build.log | head -40; echo "BUILD FAILED"; git -C /tmp/scr-repo checkout -q -- .; exit 2; }
 out="$dir/check-output.txt"; : > "$out"; caught=""
 for id in "$@"; do
   (cd /tmp/scr-sim && VERIF_DIR=/tmp/scr-verif ./target/release/rpki-sim check "$id" --tier "$tier" --no-evidence) > /tmp/scr-run.$$ 2>&1
